@@ -38,6 +38,7 @@ RCX_WY_SP = [('open',), ('rc', 'x'), ('w', 'y'), ('sp',), ('commit',),
 WY_SP_RCX = [('open',), ('w', 'y'), ('sp',), ('rc', 'x'), ('commit',),
              ('close',)]
 RX_WX = [('open',), ('r', 'x'), ('w', 'x'), ('commit',), ('close',)]
+RCGX_WY = [('open',), ('rcg', 'x'), ('w', 'y'), ('commit',), ('close',)]
 # a declared dependency that is modified tentatively and rolled back: it is
 # still a dependency (without / with a savepoint that stored the change)
 RCX_WX_RB_WY = [('open',), ('rc', 'x'), ('spk',), ('w', 'x'), ('rb',),
@@ -69,7 +70,7 @@ HARNESSES = {
 CATALOG = {
     'wx': WX, 'wx-retry': WX_RETRY, 'wxy': WXY, 'wy2': WY2,
     'rcx-wy': RCX_WY, 'rcx-wy-sp': RCX_WY_SP, 'wy-sp-rcx': WY_SP_RCX,
-    'rx-wx': RX_WX, 'rcx-wx-rb-wy': RCX_WX_RB_WY,
+    'rx-wx': RX_WX, 'rcgx-wy': RCGX_WY, 'rcx-wx-rb-wy': RCX_WX_RB_WY,
     'rcx-wx-sp-rb-wy': RCX_WX_SP_RB_WY, 'ik': IK, 'ik-retry': IK_RETRY, 'ik-wx': IK_WX,
 }
 MERGE = ('k',)
@@ -77,7 +78,8 @@ MERGE = ('k',)
 # writer of the object they also write (thorough: every pair)
 MERGE_PAIRS = {('ik', 'ik'), ('ik', 'ik-retry'), ('ik', 'ik-wx'),
                ('ik-wx', 'ik-wx'), ('ik-wx', 'wx'),
-               ('rcx-wx-rb-wy', 'wx'), ('rcx-wx-sp-rb-wy', 'wx')}
+               ('rcx-wx-rb-wy', 'wx'), ('rcx-wx-sp-rb-wy', 'wx'),
+               ('rcgx-wy', 'wx')}
 KINDS = ('F', 'M', 'DMM', 'DFM')
 
 
@@ -402,7 +404,7 @@ def run(rep, tier, seed, workers):
     tasks = []
     for kind in KINDS:
         for pair in itertools.combinations_with_replacement(names, 2):
-            if tier == 'quick' and any(n.startswith(('ik', 'rcx-wx-'))
+            if tier == 'quick' and any(n.startswith(('ik', 'rcx-wx-', 'rcgx'))
                                        for n in pair) \
                     and pair not in MERGE_PAIRS:
                 continue
